@@ -1,6 +1,7 @@
 package main
 
 import (
+	"bytes"
 	"encoding/hex"
 	"fmt"
 	"strconv"
@@ -102,6 +103,18 @@ func genSchedDec(g *G, tier string, emit func(string)) {
 			}
 		}
 		rec(n, nil)
+	}
+	// a long string delivered one byte at a time with a zero-length read before every byte
+	{
+		long := append([]byte{0x78, 140}, bytes.Repeat([]byte{0x61}, 140)...)
+		var ws []string
+		for i := 0; i < len(long)+2; i++ {
+			ws = append(ws, "0", "1")
+		}
+		emit("c " + hex.EncodeToString(long) + " | " + strings.Join(ws, " "))
+		emit("c 5f" + hex.EncodeToString(long) + "ff | " + strings.Join(ws, " "))
+		jl := []byte(`"` + strings.Repeat("ab", 80) + `"`)
+		emit("j " + hex.EncodeToString(jl) + " | " + strings.Join(ws, " "))
 	}
 	// long random documents under random schedules
 	nr := 3000
